@@ -24,11 +24,14 @@ GRAMS = {
     "unknown-word": lambda d: "align " + decmatrix.hx("go nosuchword forward"),
     "fsg-unknown-word": lambda d: "fsgfile " + os.path.join(d, "goforward3.fsg"),
     "no-public": lambda d: "jsgf " + decmatrix.hx("#JSGF V1.0;\ngrammar g;\n<s> = go forward;\n"),
+    "jsgffile": lambda d: "jsgffile " + os.path.join(d, "goforward.gram"),
+    "jsgffile-missing": lambda d: "jsgffile " + os.path.join(d, "no-such-grammar.gram"),
 }
 WORDS = {"duplicate": ("forward", "F AO R W ER D"), "bad-phone": ("zzbad", "G QQ"), "empty-word": ("", "G OW"),
          "empty-pron": ("zzempty", ""), "alt-without-base": ("zznobase(2)", "G OW")}
 FEEDS = {"tiny": "feed gf 300 100 i16 0 0", "norm": "feed gf 1000 8000 i16 0 0", "f32": "feed gf 9000 5000 f32 0 0",
-         "long": "feed gf2 0 40000 i16 0 0", "zero": "feed gf 0 0 i16 0 0", "nosearch": "feed gf 14000 6000 i16 1 0"}
+         "long": "feed gf2 0 40000 i16 0 0", "zero": "feed gf 0 0 i16 0 0", "nosearch": "feed gf 14000 6000 i16 1 0",
+         "full": "feed gf 0 -1 i16 0 1", "full-nosearch": "feed gf2 0 -1 f32 1 1"}
 
 
 def render(ops, cfg, data, with_probe=True):
